@@ -268,7 +268,7 @@ def check_history(case, ctx):
 def multi_case(draw_tier=None):
     from checks import c02
 
-    return c02.cli_case().map(lambda sc: dict(sc, sub="multi", glob=dict(sc["glob"], no_index=True)))
+    return c02.cli_case().map(lambda sc: dict(sc, sub="multi"))
 
 
 def check_multi(sc, ctx):
@@ -289,6 +289,8 @@ def check_multi(sc, ctx):
         raise Violation(f"info file has {len(rows)} rows for {len(recs)} reads ({args})", observed=rows)
     ctx.label(f"multi:sources={len(sc['sources'])}")
     nt = False
+    indexed = set() if sc["glob"]["no_index"] else {
+        t for t in ("prefix", "suffix") if sum(1 for x in specs.values() if x["type"] == t) >= 2}
     for (name, read, _), row in zip(recs, rows):
         if row[1] == "-1":
             continue
@@ -296,9 +298,33 @@ def check_multi(sc, ctx):
         if spec is None:
             raise Violation(f"info file names adapter {row[7]!r}, which the command line {args} does not define",
                             observed=row[:8])
+        got = [int(row[1]), int(row[2]), int(row[3])]
+        if spec["type"] in indexed:
+            # An index stands in for the aligner here (C08 compares the two); the statement of C01 is checked on the
+            # row itself: anchored, whole adapter, errors = true distance <= rate x non-N adapter bases.
+            ctx.label("multi:row-from-index")
+            seq, n = spec["seq"], len(read)
+            errors, rstart, rstop = got
+            anchored = (rstart == 0) if spec["type"] == "prefix" else (rstop == n)
+            if not (0 <= rstart <= rstop <= n) or not anchored:
+                raise Violation(f"{args}: indexed {spec['type']} adapter {row[7]} reported at [{rstart},{rstop}) of "
+                                f"read {read!r} (length {n})", observed=got)
+            piece = read[rstart:rstop].upper()
+            eq = oracle.eq_relation(not set(seq) <= set("ACGT"), spec["rw"])
+            if spec["indels"]:
+                d = oracle.edit_distance(seq, piece, eq)
+            else:
+                d = sum(1 for x, y in zip(seq, piece) if not eq(x, y)) if len(piece) == len(seq) else None
+            budget = spec["e"] * (len(seq) - seq.count("N"))
+            if d is None or d != errors or errors > budget + 1e-9:
+                raise Violation(
+                    f"{args}: read {read!r}: indexed adapter {row[7]} ({spec['type']} {seq!r}, documented e={spec['e']} "
+                    f"indels={spec['indels']}) reported with {errors} errors at [{rstart},{rstop}); true distance {d}, "
+                    f"allowed {budget}", observed=got, expected={"distance": d, "allowed": budget})
+            nt = True
+            continue
         a = cached_adapter(spec)
         m = a.match_to(read)
-        got = [int(row[1]), int(row[2]), int(row[3])]
         exp = None if m is None else [m.errors, m.rstart, m.rstop]
         if got != exp:
             raise Violation(
